@@ -1275,6 +1275,9 @@ def gen_logs_tables(tier):
                 yield c
                 if rot % 3 == 0:
                     yield dict(c, api=True)        # with an API header above the plot area (-A)
+                if rot % 3 == 1 and scale == 0:
+                    # every curve goes to the second film only: the first film has nothing to plot, the second one has
+                    yield tables_case(film, three_curves(False, '2'), three_chans(rot), down=down, scale=scale, entry='PlotLogs')
     for n, fpr in ((1, 1), (2, 1), (2, 4)):
         yield tables_case([FILM_EEE], three_curves(), three_chans(1), n=n, entry='PlotLogs', fpr=fpr)
 
